@@ -410,6 +410,49 @@ def options_reach_library(res, prog, c):
             res.violation('C20.7', 'C20.7|%s' % fld, f, f.line, 'option field `%s` is %s: on some path to process_minidump_with_options it is ignored' % (fld, 'only read under a branch' if reads.get(fld) else 'never read'))
 
 
+def diagnostics_channel(res, prog, c):
+    """C20.2b: "exits with status 1 with a diagnostic on standard error".  The failure exits report through tracing's
+    error!, so the diagnostic reaches standard error only if the subscriber writes there: every with_writer(..) of the
+    subscriber set up in main_result must be std::io::stderr."""
+    res.rule('C20.2b', 0, floor=2, note='the tracing subscriber that carries the failure diagnostics writes to standard error')
+    f = c.fn(MAIN)
+    if f is None:
+        res.error('C20.2b', 'main_result body not found')
+        return
+    for b, t in f.calls():
+        if (f.callee(t) or '').endswith('SubscriberBuilder::with_writer'):
+            res.rule('C20.2b', 1)
+            w = f.expand(f.operand_tree(t['args'][1]))
+            if w != ('fnref', 'std::io::stderr'):
+                opt = 'log_file' if 'log_file' in show(w) else '?'
+                res.violation('C20.2b', 'C20.2b|%s' % opt, f, t.get('line'), 'with --%s the subscriber writes to %s: a run that fails (exit status 1 after error!) leaves standard error empty' % (opt.replace('_', '-'), show(w)[:100]))
+
+
+def feature_defaults(res, prog, c):
+    """C20.7b: the option set picked by --features is the library's, and a command-line flag can only add to it.  After
+    `options = ProcessorOptions::stable_basic() / stable_all() / unstable_all()`, a boolean feature field is written only
+    as `options.f | cli.f` (never plainly overwritten with the flag, which is false when absent and would switch off
+    what the feature set enabled)."""
+    res.rule('C20.7b', 0, floor=1, note='boolean ProcessorOptions fields set by --features are only OR-ed with their flags')
+    f = c.fn(MAIN)
+    if f is None:
+        res.error('C20.7b', 'main_result body not found')
+        return
+    pc = prog.crate('minidump_processor')
+    adt = pc.adts.get('minidump_processor::processor::ProcessorOptions') or pc.adts.get('minidump_processor::ProcessorOptions')
+    bools = [x[0] for x in adt['variants'][0]['fields'] if x[1] == 'bool'] if adt else []
+    if not bools:
+        res.error('C20.7b', 'no boolean field found in ProcessorOptions')
+    for fld in bools:
+        for (pb, pi, place, rv) in part_assigns(f, fld):
+            if not show(place).startswith('options.'):
+                continue
+            res.rule('C20.7b', 1)
+            v = show(rv)
+            if not re.match(r'^\(BitOr options\.%s cli\.%s\)$|^\(BitOr cli\.%s options\.%s\)$' % (fld, fld, fld, fld), v) and v not in ('1',):
+                res.violation('C20.7b', 'C20.7b|%s|overwrite' % fld, f, f.blocks[pb]['s'][pi].get('line'), 'options.%s is overwritten with %s after the --features defaults were picked: without the flag the feature set\'s `true` is lost and the report differs from the library\'s for the same options' % (fld, v[:80]))
+
+
 def destinations(res, prog, c):
     """C20.8: the report destinations are files that hold nothing but this run's report.  In the whole binary a file is
     opened for writing only by File::create / File::create_new (called or passed as a function value) - or through an
@@ -478,6 +521,8 @@ def run(tier, t0):
     exit_rules(res, prog, c)
     raw_dump(res, prog, c)
     options_reach_library(res, prog, c)
+    diagnostics_channel(res, prog, c)
+    feature_defaults(res, prog, c)
     destinations(res, prog, c)
     # backing rule for the stats getters (C20.subscriptions)
     res.rule('C20.subscriptions', 0, floor=2, note='stat getters used by the CLI are the ones it subscribed to')
